@@ -57,6 +57,10 @@ def generate(rng, tier):
             ln = rng.randint(0, 12)
             b = bytes(rng.getrandbits(8) for _ in range(ln))
             out.append({"k": k, "b": b.hex(), "l": rng.randint(0, 14)})
+    # codeB2ToB64 given text (str) instead of bytes, with multi-byte characters
+    for _ in range(n // 12):
+        txt = "".join(rng.choice(["é", "€", "x", "ß", "漢", "a", "\U0001f600", "-"]) for _ in range(rng.randint(1, 5)))
+        out.append({"k": "toB64", "b": txt.encode("utf-8").hex(), "l": rng.randint(0, 10), "str": True})
     return out
 
 
@@ -80,7 +84,19 @@ def run_impl(case):
         if k == "toB2":
             return {"r": ["ok", helping.codeB64ToB2(case["s"]).hex()]}
         if k == "toB64":
-            return {"r": ["ok", helping.codeB2ToB64(bytes.fromhex(case["b"]), case["l"])]}
+            b = bytes.fromhex(case["b"])
+            if case.get("str"):
+                # the documented str form of the argument stands for its utf-8 bytes: same answer, same refusal
+                def call(x):
+                    try:
+                        return ["ok", helping.codeB2ToB64(x, case["l"])]
+                    except Exception as ex:
+                        return ["exc", exn_kind(ex)]
+                rs, rb = call(b.decode("utf-8")), call(b)
+                if rs != rb:
+                    return {"r": ["exc", "OtherErr"], "strdiff": [rs, rb]}
+                return {"r": rb}
+            return {"r": ["ok", helping.codeB2ToB64(b, case["l"])]}
         if k == "nab":
             return {"r": ["ok", helping.nabSextets(bytes.fromhex(case["b"]), case["l"]).hex()]}
     except Exception as ex:
@@ -92,6 +108,9 @@ def oracle(case, obs):
     """The property itself, on the implementation: inverse laws."""
     from hio.help import helping
     k, r = case["k"], obs["r"]
+    if obs.get("strdiff"):
+        return (f"codeB2ToB64 of the text {bytes.fromhex(case['b']).decode('utf-8')!r} gives {obs['strdiff'][0]}, of its utf-8 bytes "
+                f"{obs['strdiff'][1]} (l = {case['l']})")
     if k == "intTo":
         if r[0] != "ok":
             return f"intToB64 raised {r[1]}"
